@@ -637,6 +637,12 @@ func convertInt(v Val, from, to types.Type) (Val, bool) {
 // AddConst returns x + c modulo 2^w in the affine domain (exported for building expected values).
 func AddConst(x Val, c int64, w int) Val { return addConst(x, c, w) }
 
+// IntWidth is the width in bits of integer type t on the analysed target.
+func IntWidth(t types.Type) (int, bool) {
+	w, _, ok := intInfo(t)
+	return w, ok
+}
+
 // ConvertInt converts an abstract integer between Go integer types (exported for building expected values).
 func ConvertInt(v Val, from, to types.Type) (Val, bool) { return convertInt(v, from, to) }
 
